@@ -30,10 +30,8 @@ del env.xf
 del env.yf
 del env.sf
 
-del env.CONDITION[0b100]
-del env.CONDITION[0b101]
-del env.CONDITION[0b110]
-del env.CONDITION[0b111]
+# the GB has no P/M conditions; env is shared with the Z80 decoder, so keep its table intact
+CONDITION = dict((k, v) for (k, v) in env.CONDITION.items() if k < 0b100)
 
 # update flags:
 env.cf.pos = 4
@@ -376,7 +374,7 @@ def mostek_jump(obj, nn):
 def mostek_jump(obj, cc, nn):
     if cc >= 0b100:
         raise InstructionError(obj)
-    obj.cond = env.CONDITION[cc]
+    obj.cond = CONDITION[cc]
     obj.operands = [obj.cond[0], env.cst(nn, 16)]
     obj.type = type_control_flow
 
@@ -418,7 +416,7 @@ def mostek_call(obj, nn):
 def mostek_call(obj, cc, nn):
     if cc >= 0b100:
         raise InstructionError(obj)
-    obj.cond = env.CONDITION[cc]
+    obj.cond = CONDITION[cc]
     obj.operands = [obj.cond[0], env.cst(nn, 16)]
     obj.type = type_control_flow
 
@@ -433,7 +431,7 @@ def mostek_ret(obj):
 def mostek_ret(obj, cc):
     if cc >= 0b100:
         raise InstructionError(obj)
-    obj.cond = env.CONDITION[cc]
+    obj.cond = CONDITION[cc]
     obj.operands = [obj.cond[0]]
     obj.type = type_control_flow
 
